@@ -145,7 +145,8 @@ func (w *c10World) seed() {
 			recUID = name + "-u0"
 		}
 		rec := &v1beta1.PodENI{ObjectMeta: metav1.ObjectMeta{Namespace: c10NS, Name: name, Finalizers: []string{types.FinalizerPodENI},
-			Annotations: map[string]string{types.PodUID: recUID}, Labels: map[string]string{types.ENIRelatedNodeName: c10NodeName(0)}},
+			CreationTimestamp: metav1.NewTime(w.start.Add(-time.Duration(r.CreatedAgo) * time.Second)),
+			Annotations:       map[string]string{types.PodUID: recUID}, Labels: map[string]string{types.ENIRelatedNodeName: c10NodeName(0)}},
 			Spec: v1beta1.PodENISpec{Zone: c10Zone}}
 		strategies := map[string]bool{}
 		for j, a := range r.Allocs {
@@ -263,8 +264,8 @@ func c10GenNet(t *rapid.T) c10Net {
 // which is determined by the harness' own pod actions; mid actions are ignored there)
 var c10KindsByState = map[string][]string{
 	"absent":      {"create", "create", "create", "create", "create", "rr", "rpod", "rpod", "reni", "reni", "gccr", "node"},
-	"alive":       {"rr", "rr", "rr", "rpod", "rpod", "rpod", "reni", "reni", "reni", "gone", "gone", "delete", "exit", "gccr", "gccr", "gcsec", "gcmem", "node", "node"},
-	"terminating": {"rr", "rpod", "rpod", "reni", "reni", "gone", "gone", "gone", "exit", "gccr", "node"},
+	"alive":       {"rr", "rr", "rr", "rpod", "rpod", "rpod", "reni", "reni", "reni", "gone", "gone", "delete", "exit", "gccr", "gccr", "gcsec", "gcmem", "node", "node", "cniadd", "cniadd"},
+	"terminating": {"rr", "rpod", "rpod", "reni", "reni", "gone", "gone", "gone", "exit", "gccr", "node", "cniadd"},
 	"exited":      {"rr", "rr", "rpod", "rpod", "reni", "reni", "gone", "gone", "gone", "delete", "gccr", "node"},
 }
 
@@ -272,6 +273,7 @@ var c10Bundles = [][2]uint16{
 	{0, c10AFCreate}, {c10CFCreate0, 0}, {c10CFCreate1, 0},
 	{c10CFDelete0, c10AFCreate}, {c10CFDelete1, c10AFCreate}, {c10CFDelete0 | c10CFDelete1, c10AFCreate},
 	{c10CFCreate1 | c10CFDelete0, 0}, {c10CFCreate0 | c10CFDelete1, 0}, {0, c10AFCreate | c10AFGetENI},
+	{0, c10AFReadBack}, {0, c10AFReadBack},
 }
 
 // raw op: drawn independently of the history so that rapid can delete any element of the
@@ -428,9 +430,7 @@ func c10GenLoop(t *rapid.T) c10Scenario {
 				op.CF |= c10Bundles[r.Bundle][0]
 				op.AF |= c10Bundles[r.Bundle][1]
 			}
-			if op.K != "gccr" {
-				op.Mid = r.Mid
-			}
+			op.Mid = r.Mid
 		}
 		s.Ops = append(s.Ops, op)
 	}
@@ -500,6 +500,13 @@ func c11GenRec(t *rapid.T, p, npop int) (c10SeedRec, c10PodSpec) {
 	default:
 		r.SeenAgo = -1
 	}
+	if r.SeenAgo >= 0 {
+		// the record is at least as old as the last time its pod was seen
+		r.CreatedAgo = r.SeenAgo + rapid.SampledFrom([]int{0, 1, 60, 3600}).Draw(t, "createdbefore")
+	} else {
+		// podLastSeen never set: the creation time is the only anchor, drawn around the TTL like a last-seen age
+		r.CreatedAgo = rapid.SampledFrom([]int{0, 1, refSec - m, refSec + m, refSec + m, refSec * 10}).Draw(t, "createdago")
+	}
 	return r, ps
 }
 
@@ -520,6 +527,12 @@ func c11GenRetention(t *rapid.T) c10Scenario {
 		if op.K == "gccr" && rapid.IntRange(0, 9).Draw(t, "af?") == 0 {
 			op.AF = uint16(rapid.SampledFrom([]int{c10AFGetPod, c10AFListENI, c10AFStatusUpdate, c10AFStatusPatch, c10AFGetNode}).Draw(t, "af"))
 		}
+		if op.K == "gccr" && rapid.IntRange(0, 3).Draw(t, "mid?") == 0 {
+			// something happens between the collector's List and its walk over the snapshot: a whole
+			// pod incarnation (recreated, bound, gone again) or a single pod event / reconcile
+			op.Mid = &c10Mid{K: rapid.SampledFrom([]string{"cycle", "cycle", "cycle", "create-rpod", "gone-rpod", "rpod", "reni", "create", "gone"}).Draw(t, "midk"),
+				P: rapid.IntRange(0, n-1).Draw(t, "midp")}
+		}
 		return op
 	})
 	s.Ops = rapid.SliceOfN(opGen, 1, 8).Draw(t, "ops")
@@ -529,6 +542,10 @@ func c11GenRetention(t *rapid.T) c10Scenario {
 		leave := rapid.SampledFrom([]string{"gone", "gone", "exit"}).Draw(t, "leave")
 		for _, k := range [][]string{{"gccr", leave, "rr", "gccr"}, {"gccr", "gccr", leave, "rpod", "reni", "gccr"}, {"gccr", leave, "rr", "rr", "gccr"}}[rapid.IntRange(0, 2).Draw(t, "scriptk")] {
 			s.Ops = append(s.Ops, c10Op{K: k, P: p})
+		}
+		if rapid.Bool().Draw(t, "stale") {
+			// and a last pass whose snapshot goes stale: a whole incarnation of the pod passes in between
+			s.Ops = append(s.Ops, c10Op{K: "gccr", P: p, Mid: &c10Mid{K: "cycle", P: p}})
 		}
 	}
 	if s.Ops[len(s.Ops)-1].K != "gccr" {
